@@ -360,3 +360,94 @@ Proof.
   - unfold sh_of in *. now rewrite (Hkeys n _ fragid_ne_atomname).
   - now rewrite <- KA.
 Qed.
+
+(** ---------------------------------------------------------------- the closed form read off the RETURNED graph alone *)
+From CGV Require Dialect.ReturnedAnnot Resolve.NameStep Hydro.Squash Hydro.Hydrogens Stereo.EzImpl Stereo.EzProofs.
+From CGV Require Import Resolve.Bonding Resolve.Pipeline Resolve.PipelineFull.
+Lemma desc_of_agree m1 m2 named n : has_node m1 n = true -> has_node m2 n = true ->
+  (forall key, key <> S "atomname" -> node_get m1 n key = node_get m2 n key) ->
+  (In n named -> name_in m1 n = name_in m2 n) -> desc_of m1 named n = desc_of m2 named n.
+Proof.
+  intros H1 H2 Hk Hn. unfold desc_of. unfold has_node in H1, H2. unfold node_attrs.
+  destruct (gfind n m1) as [r1|] eqn:G1; [|discriminate H1]. destruct (gfind n m2) as [r2|] eqn:G2; [|discriminate H2]. cbn [bind].
+  assert (forall key, key <> S "atomname" -> aget key (na r1) = aget key (na r2)) as Hk' by (intros key N; specialize (Hk key N); unfold node_get in Hk; now rewrite G1, G2 in Hk).
+  destruct (zin_l n named) eqn:Z1.
+  - apply zin_l_In in Z1. specialize (Hn Z1). unfold name_in, node_get in Hn. rewrite G1, G2 in Hn. now rewrite Hn.
+  - rewrite !fragid_shared_fsv, (Hk' _ fragid_ne_atomname).
+    assert (S "element" <> S "atomname") as Ne by (intros X; apply str_eqb_eq in X; vm_compute in X; discriminate). now rewrite (Hk' _ Ne).
+Qed.
+Theorem set_atom_names_closed_form_returned mol meta fgs mol' fgs' : set_atom_names mol meta fgs = Ok (mol', fgs') ->
+  (forall g, In g (fraglist_of meta fgs) -> NoDup (snd g)) ->
+  forall pre mn nodes post, fraglist_of meta fgs = pre ++ (mn, nodes) :: post ->
+  exists (namedA : list Z) (shnA : list pyval) ds vs shnB,
+    (forall k, In k namedA <-> exists g, In g pre /\ In k (snd g)) /\
+    (forall v, In v shnA <-> exists n, In n namedA /\ sh_of mol' n /\ name_in mol' n = Some v) /\
+    GraphOps.map_res (desc_of mol' namedA) nodes = Ok ds /\
+    exact (olds ds) shnA 0 ds vs shnB /\
+    map (name_in mol') nodes = map Some vs.
+Proof.
+  intros H Hn pre mn nodes post Efl.
+  destruct (set_atom_names_closed_form _ _ _ _ _ H Hn pre mn nodes post Efl) as (molA & namedA & shnA & ds & vs & shnB & NA & KA & Hkeys & HS & Hds & Hex & Hnames).
+  pose proof (ReturnedAnnot.set_atom_names_keeps _ _ _ _ _ H) as Hfin.
+  exists namedA, shnA, ds, vs, shnB. split; [exact NA|]. split; [|split; [|auto]].
+  - intros v. rewrite HS. split; intros (n & A1 & B1 & C1); exists n; repeat split; auto; unfold sh_of in *;
+      [now rewrite (Hfin n _ fragid_ne_atomname)|now rewrite <- (Hfin n _ fragid_ne_atomname)].
+  - rewrite <- Hds. apply map_res_ext_in. intros n Hin. symmetry. apply desc_of_agree.
+    + (* n is a node of molA: its description was computed *)
+      clear -Hds Hin. revert ds Hds. induction nodes as [|x r IH]; intros ds Hds; [destruct Hin|]. cbn [GraphOps.map_res] in Hds.
+      destruct (desc_of molA namedA x) as [d|] eqn:Ed; cbn [bind] in Hds; [|discriminate Hds].
+      destruct (GraphOps.map_res (desc_of molA namedA) r) as [ds'|] eqn:Er; cbn [bind] in Hds; [|discriminate Hds].
+      destruct Hin as [<-|Hin]; [|exact (IH Hin ds' eq_refl)].
+      unfold desc_of, node_attrs in Ed. unfold has_node. destruct (gfind x molA); [reflexivity|discriminate Ed].
+    + assert (exists v, name_in mol' n = Some v) as [v Hv].
+      { clear -Hnames Hin. revert vs Hnames. induction nodes as [|x r IH]; intros vs Hnames; [destruct Hin|]. destruct vs as [|v vs']; [discriminate|].
+        cbn [map] in Hnames. injection Hnames as H1 H2. destruct Hin as [<-|Hin]; [eauto|exact (IH Hin vs' H2)]. }
+      unfold name_in, node_get in Hv. unfold has_node. destruct (gfind n mol'); [reflexivity|discriminate Hv].
+    + intros key N. now rewrite Hkeys, (Hfin n key N).
+    + intros Hna. now apply KA.
+Qed.
+
+(** fraglist_of reads only the node keys of the coarse 'graph' attributes *)
+Lemma fg_get_keys : forall fgs fgs', fg_keys fgs = fg_keys fgs' -> forall k, option_map node_keys (fg_get k fgs) = option_map node_keys (fg_get k fgs').
+Proof.
+  induction fgs as [|[k0 g0] r IH]; intros [|[k1 g1] r'] H k; cbn in H; try discriminate H; [reflexivity|].
+  injection H as -> Hg Hr. cbn [fg_get]. destruct (Z.eqb k k1); [cbn [option_map]; f_equal; exact Hg|now apply IH].
+Qed.
+Lemma fraglist_of_keys meta fgs fgs' : fg_keys fgs = fg_keys fgs' -> fraglist_of meta fgs = fraglist_of meta fgs'.
+Proof.
+  intros H. unfold fraglist_of. induction meta as [|mn r IH]; [reflexivity|]. cbn [flat_map]. rewrite IH. f_equal.
+  pose proof (fg_get_keys _ _ H (nk mn)) as E. destruct (fg_get (nk mn) fgs) as [g|], (fg_get (nk mn) fgs') as [g'|]; cbn in E; try discriminate E; [|reflexivity].
+  injection E as E. destruct g as [|x t], g' as [|y t']; try discriminate E; [reflexivity|]. now rewrite E.
+Qed.
+
+(** every RETURNED all-atom end-to-end step on a coarse graph with distinct keys: the closed form, in terms of the returned fine
+    graph and the returned coarse 'graph' attributes alone *)
+Theorem step_shared_names_closed_form legacy fd prev car fo :
+  resolve_step_full legacy true fd prev car = Ok fo -> NoDup (node_keys prev) ->
+  forall pre mn nodes post, fraglist_of (fo_meta fo) (fo_fgs fo) = pre ++ (mn, nodes) :: post ->
+  exists (namedA : list Z) (shnA : list pyval) ds vs shnB,
+    (forall k, In k namedA <-> exists g, In g pre /\ In k (snd g)) /\
+    (forall v, In v shnA <-> exists n, In n namedA /\ sh_of (fo_mol fo) n /\ name_in (fo_mol fo) n = Some v) /\
+    GraphOps.map_res (desc_of (fo_mol fo) namedA) nodes = Ok ds /\
+    exact (olds ds) shnA 0 ds vs shnB /\
+    map (name_in (fo_mol fo)) nodes = map Some vs.
+Proof.
+  intros H Hp pre mn nodes post Efl.
+  assert (NoDup (node_keys (fo_m6 fo)) /\ node_keys (fo_meta fo) = node_keys prev) as [Hn Hm].
+  { revert H. unfold resolve_step_full.
+    destruct (resolve_disconnected fd _) as [[m1 fg1]|]; cbn [bind]; [|discriminate].
+    destruct (bonding_step legacy true _ m1 fg1) as [[m2 fg2]|]; cbn [bind]; [|discriminate].
+    destruct (Hydro.Squash.squash_atoms m2) as [m3|]; cbn [bind]; [|discriminate].
+    destruct (Hydro.Hydrogens.rebuild_h_atoms_default m3 car) as [m4|]; cbn [bind]; [|discriminate].
+    destruct (sort_nodes_by_attr m4) as [m5|] eqn:E5; cbn [bind]; [|discriminate].
+    destruct (Stereo.EzImpl.annotate_ez_isomers_cgsmiles m5) as [m6|] eqn:E6; cbn [bind]; [|discriminate].
+    destruct (annotate_fragments _ m6) as [f6|]; cbn [bind]; [|discriminate].
+    destruct (set_atom_names m6 _ f6) as [[m7 f7]|]; cbn [bind]; [|discriminate].
+    intros H. apply ok_inj2 in H. subst fo. cbn [fo_m6 fo_meta]. split; [|apply NameStep.keys_set_nodes_from].
+    rewrite (proj2 (Stereo.EzProofs.chiral_stays_annotate m5 m6 0 E6)). exact (NameStep.sort_nodup _ _ E5). }
+  rewrite <- Hm in Hp.
+  destruct (NameStep.aa_tail _ _ _ _ _ H) as [fgs0 [Ea Es]].
+  destruct (NameStep.annotate_groups_any _ _ _ Ea Hn Hp) as [Hnd _].
+  rewrite (fraglist_of_keys _ _ _ (set_atom_names_keys _ _ _ _ _ Es)) in Efl.
+  exact (set_atom_names_closed_form_returned _ _ _ _ _ Es Hnd pre mn nodes post Efl).
+Qed.
